@@ -234,6 +234,10 @@ func diffKind(a, b *wrun.Trace, idx int) string {
 				return strings.ReplaceAll(o, " ", "_")
 			}
 		case strings.HasPrefix(e, "instantiate"):
+			// a trap in the start function is the same kind of outcome as a trap in a called export
+			if o := strings.TrimPrefix(e, "instantiate: "); strings.HasPrefix(o, "trap:") {
+				return strings.ReplaceAll(o, " ", "_")
+			}
 			return strings.ReplaceAll(e, " ", "_")
 		}
 		return "other"
